@@ -18,7 +18,7 @@ for i in (1, 2, 3):
     for junk in ("demo_orig.log", "demo_mut.log", "demo_orig.out"): 
         try: os.remove(f"{dst}/{junk}")
         except OSError: pass
-    json.dump({"breaks_property": pid, "round": 2, "source": "independent sub-agent given only the property text and a scratch worktree (second round: asked for less obvious places, one clause of the statement each)",
+    json.dump({"breaks_property": pid, "round": int(os.environ.get("ROUND", "2")), "source": "independent sub-agent given only the property text and a scratch worktree (round %s)" % os.environ.get("ROUND", "2"),
                "needs_to_manifest": "see README.txt (written by the sub-agent)",
                "confirmed_by_me": {"what_i_ran": "tools/confirm_mutation.sh <worktree> <mutation dir>: 56 tests with the change (cmake+ctest), demo with the change, demo without", "result": lines},
                "checks_that_catch_it": {}}, open(f"{dst}/meta.json", "w"), indent=1)
